@@ -6,6 +6,7 @@
    shared maps / the To field of a shared RefSchema:
 
      schema.enter   first statement of Schema, before sc.mu.Lock()        -> PEnter
+                    (the step from here takes the lock and resets sc.registered)
      cache.lookup   before the lookup  schemaPackage.Schemas[name]         -> PLookup
      cache.insert   before             schemaPackage.Schemas[name] = ph    -> PInsert
      refto.lookup   in refTo, before the lookup                            -> PRefLookup
@@ -43,9 +44,11 @@ Fixpoint refs (g : graph) (n : name) : list name :=
    cells the built schema's ref-typed fields point to, in field order. *)
 Record cell := mkCell { c_name : name; c_to : option (list cellid) }.
 
-Record shared := mkShared { heap : list cell; cmap : list (name * cellid) }.
+(* reg = SchemaCache.registered: the names registered by the Schema call in progress,
+   taken out of the map again if that call fails *)
+Record shared := mkShared { heap : list cell; cmap : list (name * cellid); reg : list name }.
 
-Definition empty_shared : shared := mkShared [] [].
+Definition empty_shared : shared := mkShared [] [] [].
 
 Fixpoint lookup (m : list (name * cellid)) (n : name) : option cellid :=
   match m with
@@ -56,7 +59,7 @@ Fixpoint lookup (m : list (name * cellid)) (n : name) : option cellid :=
 (* Schemas[n] = &RefSchema{...}: a new cell; a later binding shadows an earlier one *)
 Definition alloc (sh : shared) (n : name) : shared * cellid :=
   let c := length (heap sh) in
-  (mkShared (heap sh ++ [mkCell n None]) ((n, c) :: cmap sh), c).
+  (mkShared (heap sh ++ [mkCell n None]) ((n, c) :: cmap sh) (reg sh ++ [n]), c).
 
 Fixpoint set_nth {A} (l : list A) (i : nat) (x : A) : list A :=
   match l, i with
@@ -68,9 +71,20 @@ Fixpoint set_nth {A} (l : list A) (i : nat) (x : A) : list A :=
 (* ref.To = built *)
 Definition set_to (sh : shared) (c : cellid) (fs : list cellid) : shared :=
   match nth_error (heap sh) c with
-  | Some cl => mkShared (set_nth (heap sh) c (mkCell (c_name cl) (Some fs))) (cmap sh)
+  | Some cl => mkShared (set_nth (heap sh) c (mkCell (c_name cl) (Some fs))) (cmap sh) (reg sh)
   | None => sh
   end.
+
+(* sc.registered = sc.registered[:0] on entry, = nil on return *)
+Definition reset_reg (sh : shared) : shared := mkShared (heap sh) (cmap sh) [].
+
+(* delete(ref.Package.Schemas, ref.Schema) *)
+Definition remove_key (m : list (name * cellid)) (n : name) : list (name * cellid) :=
+  filter (fun e => negb (N.eqb (fst e) n)) m.
+
+(* a failed call takes out of the map whatever is registered, then forgets the list *)
+Definition rollback (sh : shared) : shared :=
+  mkShared (heap sh) (fold_left remove_key (reg sh) (cmap sh)) [].
 
 Definition cell_to (sh : shared) (c : cellid) : option (list cellid) :=
   match nth_error (heap sh) c with
@@ -111,6 +125,13 @@ Fixpoint gunfold (k : nat) (g : graph) (n : name) : utree :=
 Inductive result :=
 | RErr                     (* "unlinked ref": lookup found a placeholder with To == nil *)
 | ROk (t : utree).
+
+(* the end of Schema: on an error the registered refs are deleted; registered = nil *)
+Definition finish_shared (res : result) (sh : shared) : shared :=
+  match res with
+  | RErr => rollback sh
+  | ROk _ => reset_reg sh
+  end.
 
 Definition result_solo (k : nat) (g : graph) (n : name) : result := ROk (gunfold k g n).
 
@@ -217,7 +238,7 @@ Definition release (st : state) : state :=
   | [] => mkState (s_sh st) None [] (s_thr st)
   | w :: q =>
       match nth_error (s_thr st) w with
-      | Some tw => mkState (s_sh st) (Some w) q (set_nth (s_thr st) w (with_pc tw PLookup))
+      | Some tw => mkState (reset_reg (s_sh st)) (Some w) q (set_nth (s_thr st) w (with_pc tw PLookup))
       | None => mkState (s_sh st) None q (s_thr st)
       end
   end.
@@ -233,10 +254,10 @@ Definition gstep (d : disc) (k : nat) (g : graph) (t : tid) (st : state) : state
           | PWait => st                            (* blocked *)
           | PEnter =>
               match d with
-              | Unguarded => set_thr st t (with_pc th PLookup)
+              | Unguarded => mkState (reset_reg (s_sh st)) (s_lock st) (s_waitq st) (set_nth (s_thr st) t (with_pc th PLookup))
               | Guarded =>
                   match s_lock st with
-                  | None => mkState (s_sh st) (Some t) (s_waitq st) (set_nth (s_thr st) t (with_pc th PLookup))
+                  | None => mkState (reset_reg (s_sh st)) (Some t) (s_waitq st) (set_nth (s_thr st) t (with_pc th PLookup))
                   | Some _ => mkState (s_sh st) (s_lock st) (s_waitq st ++ [t]) (set_nth (s_thr st) t (with_pc th PWait))
                   end
               end
@@ -245,7 +266,7 @@ Definition gstep (d : disc) (k : nat) (g : graph) (t : tid) (st : state) : state
               match o with
               | inl p' => mkState sh' (s_lock st) (s_waitq st) (set_nth (s_thr st) t (with_pc th p'))
               | inr res =>
-                  let st' := mkState sh' (s_lock st) (s_waitq st) (set_nth (s_thr st) t (finish_thread th res)) in
+                  let st' := mkState (finish_shared res sh') (s_lock st) (s_waitq st) (set_nth (s_thr st) t (finish_thread th res)) in
                   match d with
                   | Unguarded => st'
                   | Guarded => release st'
